@@ -10,7 +10,7 @@ import ast
 import itertools
 
 from ..core import Rule, AnalysisError, norm
-from .. import pyfront, dtable, pyutil
+from .. import pyfront, dtable, pyutil, cfold
 from . import c02
 
 LD = "python/digital_rf/list_drf.py"
@@ -119,39 +119,86 @@ def _anc(m, n):
         p = m.parents.get(p)
 
 
-def file_table(repo=None):
-    """(include_drf, include_dmd, has_drf_props, has_dmd_props) -> chosen file regex name or None"""
+def matcher_names(repo=None):
+    """{reference name: actual module-level name} of list_drf's private compiled matchers (they may have been renamed)"""
+    fo = cfold.Folder(repo)
+    out = {}
+    for ref in ("_RE_FILE", "_RE_DRFFILE", "_RE_DMDFILE", "_RE_PROPFILE", "_RE_DRFPROPFILE", "_RE_DMDPROPFILE", "_RE_SUBDIR"):
+        fo.name("list_drf", ref)
+        out[ref] = fo.aliases.get(("list_drf", ref), ref)
+    return out
+
+
+def kernel_name(repo=None):
+    """the per-channel listing generator: the module-level generator (not ilsdrf) that decides the file regex from the
+    properties files present (with its private helpers inlined)"""
     m = pyfront.mod("list_drf", repo)
-    ym = m.fn(YM)
+    names = matcher_names(repo)
+    cands = []
+    for q, f in m.functions.items():
+        if "." in q or q == "ilsdrf":
+            continue
+        if not any(isinstance(n, (ast.Yield, ast.YieldFrom)) for n in pyfront.walk_no_nested(f)):
+            continue
+        fl = m.flat(q).fn()
+        if any(isinstance(n, ast.Name) and n.id == names["_RE_DRFPROPFILE"] for n in ast.walk(fl)):
+            cands.append(q)
+    if len(cands) != 1:
+        raise AnalysisError("list_drf: the per-channel listing generator was not found exactly once (%s)" % cands)
+    return cands[0]
+
+
+def file_table(repo=None):
+    """(include_drf, include_dmd, has_drf_props, has_dmd_props) -> chosen file regex (reference name) or None, by abstract
+    execution of the per-channel generator with its helpers inlined"""
+    m = pyfront.mod("list_drf", repo)
+    names = matcher_names(repo)
+    back = {v: k for k, v in names.items()}
+    kq = kernel_name(repo)
+    ym = m.flat(kq).fn()
     body = [s for s in ym.body if not (isinstance(s, ast.Expr) and isinstance(s.value, ast.Constant))]
+    file_matchers = {names[k] for k in ("_RE_FILE", "_RE_DRFFILE", "_RE_DMDFILE")}
     out = {}
     for idrf, idmd, hdrf, hdmd in itertools.product((True, False), repeat=4):
-        it = dtable.Interp({"include_drf": idrf, "include_dmd": idmd, "has:_RE_DRFPROPFILE": hdrf, "has:_RE_DMDPROPFILE": hdmd})
-        it.run(body[:3])
-        reg = it.env.get("file_regex")
-        out[(idrf, idmd, hdrf, hdmd)] = None if it.returned else (reg[1] if isinstance(reg, tuple) else reg)
+        it = dtable.Interp({"include_drf": idrf, "include_dmd": idmd, "has:" + names["_RE_DRFPROPFILE"]: hdrf,
+                            "has:" + names["_RE_DMDPROPFILE"]: hdmd}, module=m)
+        it.run(body, stop_at=lambda s_: isinstance(s_, (ast.For, ast.While)) and not (
+            isinstance(s_, ast.For) and isinstance(s_.target, ast.Name) and s_.target.id.startswith("__once_")))
+        chosen = {v[1] for k, v in it.env.items() if isinstance(v, tuple) and len(v) == 2 and v[0] == "sym" and v[1] in file_matchers
+                  and not k.startswith("has:")}
+        if it.returned and not chosen:
+            out[(idrf, idmd, hdrf, hdmd)] = None
+        elif len(chosen) == 1:
+            out[(idrf, idmd, hdrf, hdmd)] = back[list(chosen)[0]]
+        elif not chosen:
+            out[(idrf, idmd, hdrf, hdmd)] = None
+        else:
+            raise AnalysisError("%s: more than one file regex in play for include_drf=%s include_dmd=%s (%s)" % (kq, idrf, idmd, sorted(chosen)))
     return m, ym, out
 
 
 def prop_table(repo=None):
+    """(include_drf, include_dmd, include_drf_properties, include_dmd_properties) -> properties regex (reference name) used by
+    ilsdrf, or None: abstract execution of ilsdrf (helpers inlined) up to its directory walk"""
     m = pyfront.mod("list_drf", repo)
-    il = m.fn("ilsdrf")
+    names = matcher_names(repo)
+    back = {v: k for k, v in names.items()}
+    il = m.flat("ilsdrf").fn()
     body = [s for s in il.body if not (isinstance(s, ast.Expr) and isinstance(s.value, ast.Constant))]
-    # statements up to (excluding) `path = os.path.abspath(path)`
-    upto = []
-    for s in body:
-        if isinstance(s, ast.Assign) and norm(ast.unparse(s)).startswith("path = "):
-            break
-        upto.append(s)
+    prop_matchers = {names[k] for k in ("_RE_PROPFILE", "_RE_DRFPROPFILE", "_RE_DMDPROPFILE")}
     out = {}
     for idrf, idmd in itertools.product((True, False), repeat=2):
         for pdrf, pdmd in itertools.product((True, False, None), repeat=2):
             it = dtable.Interp({"include_drf": idrf, "include_dmd": idmd, "include_drf_properties": pdrf,
-                                "include_dmd_properties": pdmd, "starttime": None, "endtime": None})
-            it.run(upto)
-            inc = it.env.get("include_properties")
-            reg = it.env.get("prop_regex")
-            out[(idrf, idmd, pdrf, pdmd)] = (reg[1] if isinstance(reg, tuple) else reg) if inc else None
+                                "include_dmd_properties": pdmd, "starttime": None, "endtime": None}, module=m)
+            it.run(body, stop_at=lambda s_: (isinstance(s_, (ast.For, ast.While)) and not (
+                isinstance(s_, ast.For) and isinstance(s_.target, ast.Name) and s_.target.id.startswith("__once_")))
+                or (isinstance(s_, ast.Assign) and norm(ast.unparse(s_)).startswith("path = ")))
+            chosen = {v[1] for k, v in it.env.items() if isinstance(v, tuple) and len(v) == 2 and v[0] == "sym" and v[1] in prop_matchers}
+            inc = it.env.get("include_properties", True)
+            if len(chosen) > 1:
+                raise AnalysisError("ilsdrf: more than one properties regex in play (%s)" % sorted(chosen))
+            out[(idrf, idmd, pdrf, pdmd)] = back[list(chosen)[0]] if (chosen and inc) else None
     return m, il, out
 
 
@@ -164,10 +211,10 @@ def r2_kind_tables(repo=None):
         want = "_RE_FILE" if (yd and ym_) else "_RE_DRFFILE" if yd else "_RE_DMDFILE" if ym_ else None
         if got != want:
             bad += 1
-            r.violation(m.rel, YM, "include_drf=%s include_dmd=%s drf_props=%s dmd_props=%s -> %s" % (idrf, idmd, hdrf, hdmd, got),
+            r.violation(m.rel, kernel_name(repo), "include_drf=%s include_dmd=%s drf_props=%s dmd_props=%s -> %s" % (idrf, idmd, hdrf, hdmd, got),
                         "expected %s: files of an excluded kind would be listed, or requested files missed" % want, line=ym.lineno)
     if not bad:
-        r.ok("%s:%s %s" % (m.rel, ym.lineno, YM), "all 16 rows (include flags x channel kinds) select the union of requested kinds present")
+        r.ok("%s:%s %s" % (m.rel, ym.lineno, kernel_name(repo)), "all 16 rows (include flags x channel kinds) select the union of requested kinds present")
     m, il, pt = prop_table(repo)
     bad = 0
     for (idrf, idmd, pdrf, pdmd), got in sorted(pt.items(), key=str):
